@@ -269,7 +269,7 @@ Section Encoder.
     do ce <- concrete_encoder c T;
     let '(cd, fl) := ce in
     do ts <- tagset_of T;
-    do cc <- encv T cd fl o v;
+    do cc <- encv T cd fl (mkOpts (o_def o) (o_chunk o) false) v;   (* ifNotEmpty is popped: this item only *)
     let '(content, is_cons) := cc in
     frame ts content is_cons o (ef_indef fl).
 
@@ -342,7 +342,7 @@ Section Encoder.
                    let emit (x: val) := do b <- enc_with enc_content ft o' x; do rest <- go fs' vs';
                                         Ok ((set_sort_key (match cd with EcSetDer => true | _ => false end) ft x, b) :: rest) in
                    match p, ov with
-                   | Opt, None => if all_optional_container ft then emit (VRec []) else go fs' vs'
+                   | Opt, None => go fs' vs'
                    | Def d, None => go fs' vs'
                    | Def d, Some x => match val_py_eq x d with
                                       | Some true => go fs' vs'
